@@ -67,6 +67,7 @@ type c20Call struct {
 	run      func(w *wire, ctx context.Context) error
 	prepare  func(w *wire)
 	okIsErr  bool // the prompt default answer is itself an error status (e.g. key not found)
+	bg       bool // called with context.Background(), as the library itself calls it: only the wrapper's own deadline ends the call
 }
 
 func runC20(c *Ctx) {
@@ -166,6 +167,13 @@ func runC20(c *Ctx) {
 			jobs = append(jobs, job{cl, b})
 		}
 	}
+	// the checkpoint load of the Couchbase backend reads the xattrs with context.Background(): the wrapper's own 5 s
+	// deadline is all that ends the call when the server stays silent
+	bgCall := c20Call{name: "GetXattrs(context.Background) as cbMetadata.Load calls it", opcode: memd.CmdSubDocMultiLookup, deadline: 5 * time.Second, bg: true,
+		run: calls[4].run, prepare: calls[4].prepare}
+	for _, b := range []beh{behs[0], behs[1], behs[4]} {
+		jobs = append(jobs, job{bgCall, b})
+	}
 	for _, cl := range long {
 		for _, b := range behs[:2] {
 			jobs = append(jobs, job{cl, b})
@@ -240,6 +248,9 @@ func runC20(c *Ctx) {
 		before := runtime.NumGoroutine()
 		w.Node.SetBehaviour(j.call.opcode, j.b.mk())
 		ctx, cancel := context.WithTimeout(context.Background(), j.call.deadline)
+		if j.call.bg {
+			ctx, cancel = context.WithCancel(context.Background())
+		}
 		if j.b.name == "never-then-cancel" {
 			ctx, cancel = context.WithCancel(context.Background())
 			go func() { time.Sleep(j.call.deadline); cancel() }()
